@@ -65,14 +65,52 @@ type ZV26Suite struct {
 	ID                    uint16
 	KeyLen, MacLen, IVLen int
 	SHA384                bool
+	Flags                 int
 }
 
+func zv26Row(s *cipherSuite) ZV26Suite {
+	return ZV26Suite{s.id, s.keyLen, s.macLen, s.ivLen, s.flags&suiteSHA384 != 0, s.flags}
+}
+
+// ZVSuites dumps implementedCipherSuites (the table cipherSuiteByID, hence mutualCipherSuite and both
+// TLS <= 1.2 handshakes, read).
 func ZVSuites() []ZV26Suite {
 	var r []ZV26Suite
 	for _, s := range implementedCipherSuites {
-		r = append(r, ZV26Suite{s.id, s.keyLen, s.macLen, s.ivLen, s.flags&suiteSHA384 != 0})
+		r = append(r, zv26Row(s))
 	}
 	return r
+}
+
+// ZVSuitesAdvertised dumps cipherSuites (the table makeClientHello and the default suite list read; only id and
+// flags are consumed from it).
+func ZVSuitesAdvertised() []ZV26Suite {
+	var r []ZV26Suite
+	for _, s := range cipherSuites {
+		r = append(r, zv26Row(s))
+	}
+	return r
+}
+
+// ZVSuiteSHA384Bit is the suiteSHA384 flag bit.
+func ZVSuiteSHA384Bit() int { return suiteSHA384 }
+
+// ZVCipherSuiteByID runs the lookup the handshakes use (mutualCipherSuite -> cipherSuiteByID).
+func ZVCipherSuiteByID(id uint16) (row ZV26Suite, ok bool) {
+	s := cipherSuiteByID(id)
+	if s == nil {
+		return ZV26Suite{}, false
+	}
+	return zv26Row(s), true
+}
+
+// ZVMutualCipherSuite runs mutualCipherSuite.
+func ZVMutualCipherSuite(have []uint16, want uint16) (row ZV26Suite, ok bool) {
+	s := mutualCipherSuite(have, want)
+	if s == nil {
+		return ZV26Suite{}, false
+	}
+	return zv26Row(s), true
 }
 
 // ZVSuite13 is one row of the TLS 1.3 suite table.
